@@ -12,36 +12,37 @@ import os, re, sys, json, subprocess, random, shutil, time
 ENV = dict(os.environ, GOFLAGS="-mod=mod", GOPROXY="off", GOSUMDB="off", GOTOOLCHAIN="local")
 REPO_MUT = "/tmp/repo_mut"
 VERIF_MUT = "/tmp/verif_mut"
-OUT = "/tmp/mut_results.jsonl"
+OUT = "/tmp/mut_results2.jsonl"
 
 FILES = {
-    "go/internal/cbor/encoder.go": ["C11"],
-    "go/internal/cbor/decoder.go": ["C12"],
+    "go/internal/cbor/encoder.go": ["C11", "C19"],
+    "go/internal/cbor/decoder.go": ["C12", "C10"],
     "go/internal/cbor/deterministic.go": ["C13"],
     "go/internal/cbor/addinfo.go": ["C13"],
-    "go/signedexchange/mice/mice.go": ["C14", "C15"],
+    "go/signedexchange/mice/mice.go": ["C14", "C15", "C19"],
     "go/signedexchange/structuredheader/parser.go": ["C16"],
     "go/signedexchange/structuredheader/writer.go": ["C16"],
     "go/signedexchange/internal/bigendian/bigendianint.go": ["C08", "C02"],
-    "go/signedexchange/signedexchange.go": ["C02", "C08", "C19"],
+    "go/signedexchange/signedexchange.go": ["C02", "C08", "C19", "C01"],
     "go/signedexchange/signer.go": ["C08", "C01"],
-    "go/signedexchange/verifier.go": ["C09", "C01"],
+    "go/signedexchange/verifier.go": ["C09", "C01", "C02"],
     "go/signedexchange/stateful_headers.go": ["C09"],
     "go/signedexchange/version/version.go": ["C08", "C02"],
     "go/signedexchange/certurl/certchain.go": ["C17"],
     "go/signedexchange/certurl/sct.go": ["C17"],
-    "go/bundle/encoder.go": ["C03", "C04"],
-    "go/bundle/decoder.go": ["C05", "C03"],
+    "go/bundle/encoder.go": ["C03", "C04", "C19"],
+    "go/bundle/decoder.go": ["C05", "C03", "C10"],
     "go/bundle/countingwriter.go": ["C04", "C19"],
-    "go/bundle/bundle.go": ["C06"],
+    "go/bundle/bundle.go": ["C06", "C20"],
     "go/bundle/version/version.go": ["C03", "C06"],
-    "go/bundle/signature/signer.go": ["C06"],
-    "go/bundle/signature/verifier.go": ["C06"],
+    "go/bundle/signature/signer.go": ["C06", "C20"],
+    "go/bundle/signature/verifier.go": ["C06", "C10"],
     "go/integrityblock/integrityblock.go": ["C07"],
-    "go/integrityblock/integrityblock-signer.go": ["C07"],
+    "go/integrityblock/integrityblock-signer.go": ["C07", "C20"],
     "go/integrityblock/webbundleid/web-bundle-id.go": ["C07"],
     "go/internal/signingalgorithm/signingalgorithm.go": ["C01", "C06"],
     "go/bundle/cmd/gen-bundle/fromdir.go": ["C20"],
+    "go/bundle/cmd/gen-bundle/fromhar.go": ["C20"],
 }
 
 OPS = [
